@@ -178,7 +178,10 @@ func (w *mworld) request(oneway bool) types.HeaderMap {
 func (w *mworld) waitNotConnecting() bool {
 	dl := time.Now().Add(opDeadline)
 	for {
-		sl, _ := w.slots()
+		sl, sd := w.slots()
+		if sd {
+			return true // no dial is carried out after Shutdown: the index stays in Connecting
+		}
 		busy := false
 		for _, s := range sl {
 			if s.St == stConnecting {
@@ -207,10 +210,9 @@ func (w *mworld) doNew(o mop, e vh.Ev) {
 	e["s"], e["c"] = 0, 0
 	w.host.SetDown(!o.Up)
 	defer w.host.SetDown(false)
-	_, shut := w.slots()
 	if !w.pool.CheckAndInit(ctx) {
 		// the connection is dialled in the background; the cluster manager polls CheckAndInit the same way
-		if !w.waitNotConnecting() && !shut {
+		if !w.waitNotConnecting() {
 			e["res"] = "stuck"
 			return
 		}
